@@ -49,6 +49,7 @@ def gen(rng, tier):
            'exc': rng.choice(['RuntimeError', 'RuntimeError', 'RuntimeError',
                               'ValueError', 'TypeError']),
            'growth': rng.random() < 0.12,
+           'resident': rng.random() < 0.5,
            'async_handlers': rng.random() < 0.5}
     lives = []
     ngen = rng.randrange(2, 6)
@@ -63,6 +64,10 @@ def gen(rng, tier):
             for _ in range(rng.randrange(0, 8)):
                 life['steps'].append([rng.choice(STEPS), rng.choice(NSS),
                                       rng.randrange(1000)])
+            if rng.random() < 0.3:
+                life['late'] = rng.sample(['enter_new', 'enter_existing',
+                                           'leave', 'emit_cb', 'disconnect'],
+                                          rng.randrange(1, 3))
             lives.append(life)
     return {'cfg': cfg, 'lives': lives}
 
@@ -108,6 +113,10 @@ def reachable(root, limit=200000):
         o = stack.pop()
         if id(o) in seen or isinstance(o, skip):
             continue
+        mod = type(o).__module__ or ''
+        if mod.startswith('sim.') or mod in ('threading', '_thread',
+                                              'collections'):
+            continue        # the simulator's own pipes, threads and queues
         seen.add(id(o))
         n += 1
         stack.extend(gc.get_referents(o))
@@ -315,9 +324,41 @@ def _run(case, cfg, w, kw):
             w.advance(40.0)
         w.settle()
         sc.drop_transport(p)
+        # the application may still be busy with this client when it goes
+        # (a background handler finishing late): API calls naming the gone
+        # session id may fail, but must not leave anything behind either
+        if life.get('late'):
+            for ns, sid in sids:
+                for what in life['late']:
+                    faults['late_api_call'] = faults.get('late_api_call',
+                                                         0) + 1
+                    if what == 'enter_new':
+                        w.api('s', 'enter_room', sid, 'late-%s' % sid[:4],
+                              namespace=ns)
+                    elif what == 'enter_existing':
+                        w.api('s', 'enter_room', sid, 'room0', namespace=ns)
+                    elif what == 'leave':
+                        w.api('s', 'leave_room', sid, 'room1', namespace=ns)
+                    elif what == 'emit_cb':
+                        w.api('s', 'emit', 'q', 1, to=sid, namespace=ns,
+                              callback=lambda *a: None)
+                    elif what == 'disconnect':
+                        w.api('s', 'disconnect', sid, namespace=ns)
+                    w.settle()
         check_gone(eio_sid, sids, 'life of peer %d (end %s)' % (p, end))
         ended_sids.extend(sids)
 
+    resident = None
+    if cfg.get('resident'):
+        # another client that stays for the whole run, in room0 of every
+        # namespace: the others come and go next to it
+        resident = sc.open('resident')
+        for ns in NSS:
+            behaviours[(resident.conn.cid, ns)] = 'accept'
+            rs = sc.connect('resident', ns)
+            if rs:
+                w.api('s', 'enter_room', rs, 'room0', namespace=ns)
+        w.settle()
     ngens = len(gens)
     for gi, g in enumerate(gens):
         for life in [l for l in case['lives'] if l['gen'] == g]:
@@ -326,6 +367,10 @@ def _run(case, cfg, w, kw):
         if cfg['growth']:
             gc.collect()
             sizes.append(reachable(srv))
+    if resident is not None:
+        resident.sever(0.0)
+        w.settle()
+        sc.drop_transport('resident')
     w.settle()
     # the last client has gone: indistinguishable from a fresh server
     snap = snapshot(srv)
